@@ -4,34 +4,34 @@ import json, os, importlib, sys
 HERE = os.path.dirname(os.path.dirname(os.path.abspath(__file__)))
 sys.path.insert(0, HERE)
 CHECKS = {
- 'C01': dict(tech='abstract interpretation of encoder/decoder in a bit-layout domain + folded check table vs MIDI 1.0 reference',
-             text='Closed symbolic proof per message type over the whole attribute domain (not sampled): layouts of encode_message/decode_message are computed by abstract interpretation and compared bit for bit with each other and with the MIDI 1.0 table; check functions are reduced to the integer sets they accept.',
-             note='Trusted: midolint folder/bit domain/abstract interpreter and the transcribed MIDI 1.0 + docs tables. Assumes attributes are Integral instances behaving like int. hex/from_hex agreement is decided structurally (two-digit format spec, bytearray.fromhex).',
+ 'C01': dict(tech='abstract interpretation of encoder/decoder in a bit-layout domain + folded check table vs MIDI 1.0 reference; string-domain interpretation of hex/from_hex',
+             text='Closed symbolic proof per message type over the whole attribute domain (not sampled): layouts of encode_message/decode_message are computed by abstract interpretation and compared bit for bit with each other and with the MIDI 1.0 table; check functions are reduced to the integer sets they accept. bytes()/bin()/hex()/from_hex are interpreted in the symbolic string domain for all 18 types: the text denotes exactly the encoder bytes (default and custom separator) and parses back to the message with the time passed in.',
+             note='Trusted: midolint folder/bit domain/abstract interpreter and the transcribed MIDI 1.0 + docs tables. Assumes attributes are Integral instances behaving like int.',
              ref='DESIGN.md §3 C01'),
- 'C02': dict(tech='abstract interpretation of from_bytes over all first bytes x data lengths with symbolic data; outcome sets compared with the MIDI 1.0 acceptance table',
-             text='For every first byte 0..255 x 0..4 data bytes and nine sysex shapes the complete set of outcomes (return / which exception) of Message.from_bytes is computed abstractly; accepted shapes must be exactly the complete single messages, every other shape must raise ValueError, no implicit IndexError/KeyError may escape, and check_data must cover exactly the data bytes.',
+ 'C02': dict(tech='abstract interpretation of from_bytes over all first bytes x data lengths with symbolic data; outcome sets compared with the MIDI 1.0 acceptance table; outcome-set equivalence of from_hex and from_bytes',
+             text='For every first byte 0..255 x 0..4 data bytes and nine sysex shapes the complete set of outcomes (return / which exception) of Message.from_bytes is computed abstractly; accepted shapes must be exactly the complete single messages, every other shape must raise ValueError, no implicit IndexError/KeyError may escape, and check_data must cover exactly the data bytes. from_hex(text) is shown equivalent to from_bytes(the bytes the text denotes) by comparing outcome sets on 18 status bytes x 0..3 data bytes over 0..255, separators and malformed text.',
              note='Trusted: abstract interpreter model of len/index/slice; MIDI 1.0 table. Not decided: inputs that are not sequences; exception type for a non-integer FIRST item. Reproduction of the input by bytes() rests on the C01 bijection obligation (R01.3b).',
              ref='DESIGN.md §3 C02'),
 }
 CHECKS.update({
  'C03': dict(tech='abstract interpretation of every writer of message state with logging check summaries; interval-set reduction of the check functions; package-wide scan for attribute-dict writers; MRO resolution of __setattr__/__delattr__',
-             text='Every construct in mido/ that can write a message attribute dict is enumerated and must be one of the analysed writers; Message.__init__, copy, _setattr, from_bytes, SysexData.__iadd__ and check_msgdict are abstractly interpreted with opaque marker values: a check of the stored value precedes the first store on every outcome, rejected names raise before any store, copy never writes the original; the check table is exhaustive and each check accepts exactly the documented integer set.',
+             text='Every construct in mido/ that can write a message attribute dict is enumerated and must be one of the analysed writers; Message.__init__, copy, _setattr, from_bytes, SysexData.__iadd__ and check_msgdict are abstractly interpreted with opaque marker values: a check of the stored value precedes the first store on every outcome, rejected names raise before any store, copy never writes the original; the check table is exhaustive and each check accepts exactly the documented integer set. Sysex data given as a one-shot iterable (generator) is modelled: whatever ends up stored must have been seen by the check.',
              note='Trusted: abstract interpreter, folder, transcribed documentation table. Excluded by the property itself: skip_checks=True. Not decided: skip_checks/self smuggled as a key inside a dict or text passed to from_dict/from_str.',
              ref='DESIGN.md §3 C03'),
  'C04': dict(tech='one-step abstract interpretation of Tokenizer.feed_byte over 30 abstract pre-states x 256 bytes against a reference transition relation; abstract interpretation of Parser on a symbolic stream',
-             text='Inductive argument over one-step summaries: for every abstract pre-state and every byte value the transition never raises, emits exactly the token a MIDI 1.0 tokenizer emits (real-time bytes exactly once, completed messages made of the status and the bytes received in order), keeps tokens already pending, never aliases an emitted buffer from a non-idle state and re-establishes the state invariant; every token shape is one C02 proves decodable; Parser feed/feed_byte/_decode/retrieval are abstractly interpreted on a symbolic stream (channel, real-time inside a message, 3-byte sysex) and must hand out exactly its messages.',
+             text='Inductive argument over one-step summaries: for every abstract pre-state and every byte value the transition never raises, emits exactly the token a MIDI 1.0 tokenizer emits (real-time bytes exactly once, completed messages made of the status and the bytes received in order), keeps tokens already pending, never aliases an emitted buffer from a non-idle state and re-establishes the state invariant; every token shape is one C02 proves decodable; Parser feed/feed_byte/_decode/retrieval are abstractly interpreted on a symbolic stream (channel, real-time inside a message, 3-byte sysex) and must hand out exactly its messages. Decoder layouts (token -> message -> same bytes) are shared with C01; constructed Parser/Tokenizer queues are empty, unbounded and not shared.',
              note='Trusted: abstract interpreter; the reference transition relation in midolint/rules/c04.py (allows both reset and keep where the properties allow both); C02 for token->message. No byte stream is executed.',
              ref='DESIGN.md §3 C04'),
  'C05': dict(tech='abstract interpretation of Parser and ParserQueue histories on a symbolic stream under every 2-cut, byte-wise and constructor feeding with retrieval calls in between; the C04 one-step transitions; purity and single-writer rules',
-             text='One symbolic stream is fed to the interpreted Parser at once, byte by byte, through the constructor, through parse/parse_all and cut at every offset; the messages must be the same four each time; a history interleaving feed/feed_byte with pending/__len__/get_message/iteration must observe first-in first-out delivery, pending = number retrievable, None exactly when empty. The general induction is carried by the C04 one-step transitions (pending tokens kept, state a function of the bytes alone), the purity rule (no method of Tokenizer/Parser reads anything but fields, arguments and constants) and the closed writer set of the tokenizer fields. ParserQueue is interpreted with queue and lock doubles: put_bytes in two chunks with a put in between gives the stream order, poll/iterpoll hand out FIFO then None, and all parser steps happen under the one lock made by __init__.',
+             text='One symbolic stream is fed to the interpreted Parser at once, byte by byte, through the constructor, through parse/parse_all and cut at every offset; the messages must be the same four each time; a history interleaving feed/feed_byte with pending/__len__/get_message/iteration must observe first-in first-out delivery, pending = number retrievable, None exactly when empty. The general induction is carried by the C04 one-step transitions (pending tokens kept, state a function of the bytes alone), the purity rule (no method of Tokenizer/Parser reads anything but fields, arguments and constants) and the closed writer set of the tokenizer fields. ParserQueue is interpreted with queue and lock doubles: put_bytes in two chunks with a put in between gives the stream order, poll/iterpoll hand out FIFO then None, and all parser steps happen under the one lock made by __init__. Short streams whose last byte completes a message must leave nothing behind in the tokenizer for every entry point; constructed queues are unbounded.',
              note='Trusted: abstract interpreter (lazy generator model), name resolution. The chunking argument for arbitrary streams is the induction over one-step transitions; the stream scenarios are its base cases at every cut of every message kind, not a sample of runs (data bytes are symbolic).',
              ref='DESIGN.md §3 C05'),
  'C06': dict(tech='one-step abstract transitions of the tokenizer read as resynchronisation obligations',
-             text='For every status byte that starts a message the post-state is the fresh state whatever the pre-state was (prefix forgotten); a real-time byte inside an open sysex leaves the sysex state untouched and is queued at once; from the fresh state data bytes complete exactly one token at the last byte; emitted buffers are final. With C02 this gives parse(P + encode(M)) = parse(P) + [M] by induction over bytes.',
+             text='For every status byte that starts a message the post-state is the fresh state whatever the pre-state was (prefix forgotten); a real-time byte inside an open sysex leaves the sysex state untouched and is queued at once; from the fresh state data bytes complete exactly one token at the last byte; emitted buffers are final. With C02 this gives parse(P + encode(M)) = parse(P) + [M] by induction over bytes. Constructed Parser/Tokenizer queues are empty, unbounded (a bounded deque drops the head of long streams) and per instance.',
              note='Trusted: as C04. Chains of length <= 3 are covered by the k-indexed pre-states; no stream is run.',
              ref='DESIGN.md §3 C06'),
  'C07': dict(tech='abstract interpretation of write_track/read_track/_save/_load over symbolic tracks in a wire-format domain (bit layouts, VLQ markers, struct fields, symbolic runs)',
-             text='About 60 symbolic tracks (all message kinds, running-status runs and breaks, sysex, all meta types incl. unknown, end_of_track placements) are written abstractly, the chunk length is compared with what follows, the items are served back to the abstractly interpreted reader and every message must come back equal in class, attributes and delta time with one trailing end_of_track; header round trip, save() and write_track guards (real-time, negative/non-integral time, type 0 track count), REALTIME_TYPES = real-time rows of SPECS.',
+             text='About 60 symbolic tracks (all message kinds, running-status runs and breaks, sysex, all meta types incl. unknown, end_of_track placements) are written abstractly, the chunk length is compared with what follows, the items are served back to the abstractly interpreted reader and every message must come back equal in class, attributes and delta time with one trailing end_of_track; header round trip, save() and write_track guards (real-time, negative/non-integral time, type 0 track count), REALTIME_TYPES = real-time rows of SPECS. The VLQ function bodies (C08 R08.1) and the text codec helper bodies (C17 R17.4) are analysed here too, since the scenarios use their summaries.',
              note='Trusted: abstract interpreter and wire domain; VLQ/read_bytes/struct/encode_string summaries (bodies checked by C08 R08.1, C09 R09.6, C17). Not decided: equality of arbitrary whole files, load-save-load fixed point on mutated bytes (values, not shape).',
              ref='DESIGN.md §3 C07'),
  'C08': dict(tech='abstract interpretation of writer and reader against an independent reference SMF encoder; bit-layout analysis of the VLQ functions; range-class tracing of clip',
@@ -39,33 +39,33 @@ CHECKS.update({
              note='Trusted: midolint.smf reference encoder and SMF tables (the oracle), abstract interpreter. Not decided: byte-exact comparison with an external decoder over all event lists.',
              ref='DESIGN.md §3 C08'),
  'C09': dict(tech='interval-set reduction of the spec check methods vs documentation; abstract interpretation of MetaMessage.bytes/build_meta_message/from_bytes/__init__/_setattr in the bit-layout domain; finite table walks',
-             text='Per meta type: accepted domain = documented domain, encoding = FF type VLQ(len(payload)) payload with every item a byte and the SMF bit layout, decode(encode(m)) = m through the reader path, from_bytes on payload lengths at the VLQ boundaries, all 256 denominators and 30 keys enumerated through check/encode/decode, check-before-store in __init__/_setattr at both range limits, registry and read_bytes limit.',
+             text='Per meta type: accepted domain = documented domain, encoding = FF type VLQ(len(payload)) payload with every item a byte and the SMF bit layout, decode(encode(m)) = m through the reader path, from_bytes on payload lengths at the VLQ boundaries, all 256 denominators and 30 keys enumerated through check/encode/decode, check-before-store in __init__/_setattr at both range limits, registry and read_bytes limit. The text codec helper bodies (C17 R17.4) are analysed here too.',
              note='Known findings D6 (smpte_offset hours overlap) and D7 (sequencer_specific unchecked) are listed in known_findings.json. Trusted: abstract interpreter, SMF meta table, documentation table. Text payloads are symbolic byte runs (codec behaviour is C17 / not decided).',
              ref='DESIGN.md §3 C09'),
 })
 CHECKS.update({
  'C10': dict(tech='Eraser-style lockset audit over abstract executions of every public call of every port kind (lock, queue and device doubles; event log); alias-aware guarded-by sweep over all methods of the port family; lock-order and dummy-lock reachability rules; copy-on-send by abstract interpretation',
-             text='Decides the lock discipline that makes exactly-once hold in every interleaving, not the interleavings: 40+ abstract executions (receive with/without pending, blocking with delayed delivery, poll, iter_pending, iteration with the device closing, send/reset/panic/close on BaseInput, BaseOutput, BaseIOPort, EchoPort, IOPort, MultiPort) are audited event by event - every use of a pending queue happens with a real lock held and one lock is common to all uses, each popleft is in the same acquisition as the emptiness test guarding it, device hooks run under the port lock, sleep() runs with no lock held, no call raises; a syntactic sweep (aliases of self._lock/self._messages followed) covers methods the scenarios do not run; a class without a real lock must not reach lock-relying base methods on a shared queue; lock order over container->child edges is acyclic; the device receives a copy; ParserQueue feeds and drains under one lock.',
+             text='Decides the lock discipline that makes exactly-once hold in every interleaving, not the interleavings: 40+ abstract executions (receive with/without pending, blocking with delayed delivery, poll, iter_pending, iteration with the device closing, send/reset/panic/close on BaseInput, BaseOutput, BaseIOPort, EchoPort, IOPort, MultiPort) are audited event by event - every use of a pending queue happens with a real lock held and one lock is common to all uses, each popleft is in the same acquisition as the emptiness test guarding it, device hooks run under the port lock, sleep() runs with no lock held, no call raises; a syntactic sweep (aliases of self._lock/self._messages followed) covers methods the scenarios do not run; a class without a real lock must not reach lock-relying base methods on a shared queue; lock order over container->child edges is acyclic; the device receives a copy; ParserQueue feeds and drains under one lock. A receiver abandoning iter_pending()/iteration after one message must leave the rest deliverable (R10.9).',
              note='Assumes CPython atomicity of single deque operations and RLock semantics. NOT decided: delivery order / exactly-once as observed histories under real schedules (needs schedule exploration - another technique); backends with their own queue+lock (rtmidi, amidi) are outside the analysed family (listed in evidence; thorough tier applies the rules to the others).',
              ref='DESIGN.md §3 C10'),
  'C11': dict(tech='typestate obligations by abstract interpretation of single port API calls from constructed abstract pre-states with scripted device doubles',
-             text='close() from open: reset (32 messages) then exactly one _close, closed set, also when reset fails; close() from closed: nothing; send on closed: ValueError, device untouched; receive/poll/iteration drain pending messages before looking at closed; iteration ends quietly whether closed before or inside _receive; blocking receive returns the message delivered after k polls with k sleeps, poll never sleeps; MultiPort.receive(block=True) with a pending child message terminates (an endless generator under extend is reported as non-termination); IOPort/EchoPort/MultiPort built by their real constructors.',
+             text='close() from open: reset (32 messages) then exactly one _close, closed set, also when reset fails; close() from closed: nothing; send on closed: ValueError, device untouched; receive/poll/iteration drain pending messages before looking at closed; iteration ends quietly whether closed before or inside _receive; blocking receive returns the message delivered after k polls with k sleeps, poll never sleeps; MultiPort.receive(block=True) with a pending child message terminates (an endless generator under extend is reported as non-termination); IOPort/EchoPort/MultiPort built by their real constructors. Socket ports: every read follows a positive readability poll, also with a message half received (shared with C18).',
              note='Trusted: abstract interpreter (with-blocks execute their body, generators evaluated eagerly), device doubles. Not decided: wall-clock promptness; threads (C10).',
              ref='DESIGN.md §3 C11'),
  'C12': dict(tech='abstract interpretation of merge_tracks (generators, stable sort on folded keys) against a reference merge derived from the property',
-             text='merge_tracks is interpreted on ten track lists exercising every ordering decision (ties across and within tracks, tie order vs type order, end_of_track missing/repeated/in the middle/longest, empty and no tracks), with and without skip_checks; result compared event for event with a reference merge (absolute tick, (time, track, index) order, one trailing end_of_track, duration of the longest input); inputs must be untouched and not aliased.',
+             text='merge_tracks is interpreted on ten track lists exercising every ordering decision (ties across and within tracks, tie order vs type order, end_of_track missing/repeated/in the middle/longest, empty and no tracks), with and without skip_checks; result compared event for event with a reference merge (absolute tick, (time, track, index) order, one trailing end_of_track, duration of the longest input); inputs must be untouched and not aliased. Gaps of 2^28+5 .. 2^70 ticks and single-message tracks are among the scenarios; MidiFile.merged_track must merge the current contents (no memo; shared with C16).',
              note='Delta times are small concrete integers standing for the general prefix-sum argument; attribute values are symbolic. Trusted: abstract interpreter, reference merge.',
              ref='DESIGN.md §3 C12'),
  'C13': dict(tech='abstract interpretation in a polynomial domain over positive real symbols (ticks, tempos, ticks_per_beat, clock readings)',
-             text='MidiFile.__iter__/length with merge and tick2second inlined must yield t*M/(1e6*B) with M the tempo in force before each message (500000 until the first set_tempo, set_tempo applies to later deltas only), zero deltas 0, length the sum, type 2 refused; play() with a symbolic clock must sleep exactly (sum of times) - (now - start) when positive, read start once, yield after the sleep decision, filter meta messages; unit conversions are exact monomials with round-before-int, mutually inverse.',
+             text='MidiFile.__iter__/length with merge and tick2second inlined must yield t*M/(1e6*B) with M the tempo in force before each message (500000 until the first set_tempo, set_tempo applies to later deltas only), zero deltas 0, length the sum, type 2 refused; play() with a symbolic clock must sleep exactly (sum of times) - (now - start) when positive, read start once, yield after the sleep decision, filter meta messages; unit conversions are exact monomials with round-before-int, mutually inverse. Premises shared with C12 (merge order and completeness) and C16 (no memo of the merge) are discharged here as well.',
              note='NOT decided: the numeric clause - floating point error of cumulative sums vs the exact integral, inverse up to rounding at extreme tempos (runtime values no static argument in reach bounds).',
              ref='DESIGN.md §3 C13'),
  'C14': dict(tech='abstract interpretation in a symbolic string domain (literal text + decimal/float/hex segments); malformed-text catalogue through the interpreted parser; symbolic eval(repr(x)) by parsing the symbolic repr text',
-             text='str(m) is computed symbolically for all 18 types (negative pitch range, sysex of 0/1/3 symbolic bytes, int and float symbolic times) and fed to the interpreted from_str: every attribute must come back symbol for symbol; dict/from_dict likewise; 30 malformed texts must raise ValueError and nothing else; parse_string_stream must report them with line numbers and continue; repr(x) of messages, meta messages, tracks and files is computed symbolically, parsed with ast.parse and the constructor call it denotes is interpreted: the object built must equal x.',
+             text='str(m) is computed symbolically for all 18 types (negative pitch range, sysex of 0/1/3 symbolic bytes, int and float symbolic times) and fed to the interpreted from_str: every attribute must come back symbol for symbol; dict/from_dict likewise; 30 malformed texts must raise ValueError and nothing else; parse_string_stream must report them with line numbers and continue; repr(x) of messages, meta messages, tracks and files is computed symbolically, parsed with ast.parse and the constructor call it denotes is interpreted: the object built must equal x. That every entry point leaves messages in canonical form (sysex data a tuple) is shared with C03.',
              note='Float <-> text exactness is Python\'s repr guarantee (trusted). A text carrying skip_checks=/self= words is outside "valid message".',
              ref='DESIGN.md §3 C14'),
  'C15': dict(tech='abstract interpretation of freeze/thaw/copy over all six message classes and None; MRO resolution of mutators; hashability scan',
-             text='freeze and thaw map each class to its counterpart (mutually inverse, no dead isinstance branch), results are equal but independent objects, freeze of frozen is identity, None maps to None, non-message rejected; copy() gives a new object with its own dict, overrides go through the checks, frozen copies stay frozen; frozen __setattr__/__delattr__ resolve to methods raising on every path; __eq__/__hash__ are functions of vars(self) only and stored values are hashable.',
+             text='freeze and thaw map each class to its counterpart (mutually inverse, no dead isinstance branch), results are equal but independent objects, freeze of frozen is identity, None maps to None, non-message rejected; copy() gives a new object with its own dict, overrides go through the checks, frozen copies stay frozen; frozen __setattr__/__delattr__ resolve to methods raising on every path; __eq__/__hash__ are functions of vars(self) only and stored values are hashable. __eq__ and __hash__ are interpreted: equal attribute dicts in either insertion order compare and hash equal, any single differing attribute (time included) compares unequal, the hash reads nothing but vars(self).',
              note='Known finding D15 (sequencer_specific default [[]] unhashable). UnknownMetaMessage.copy with an invalid time is unchecked (D7 family, noted).',
              ref='DESIGN.md §3 C15'),
  'C16': dict(tech='no-derived-state scan of MidiFile + abstract observe-edit-observe scenarios compared with a freshly built file',
@@ -73,19 +73,19 @@ CHECKS.update({
              note='Trusted: abstract interpreter. Edits are the documented routes (list operations / attribute assignment).',
              ref='DESIGN.md §3 C16'),
  'C17': dict(tech='abstract interpretation with a faithful model of `with <@contextmanager generator>` and a store for globals written through `global`; failure-point scenarios for _load/_save; un-summarised interpretation of the codec helpers',
-             text='MidiFile._load/_save are interpreted with charset X on files that succeed and that fail at every kind of point the property names (truncated header/track/event, invalid data byte, undecodable text, bad time in the n-th message, unencodable text): after the call - returned or raised - the process-wide charset is latin1 again, every encode_string/decode_string during the call saw X, a text meta message encoded right after sees latin1; nested overrides unwind level by level also on exceptions; only meta_charset (and helpers reachable only from it) assigns the global; encode_string/decode_string apply exactly .encode/.decode(<charset in force at call time>) (parameter defaults are evaluated at definition time by the interpreter, so early binding is caught).',
+             text='MidiFile._load/_save are interpreted with charset X on files that succeed and that fail at every kind of point the property names (truncated header/track/event, invalid data byte, undecodable text, bad time in the n-th message, unencodable text): after the call - returned or raised - the process-wide charset is latin1 again, every encode_string/decode_string during the call saw X, a text meta message encoded right after sees latin1; nested overrides unwind level by level also on exceptions; only meta_charset (and helpers reachable only from it) assigns the global; encode_string/decode_string apply exactly .encode/.decode(<charset in force at call time>) (parameter defaults are evaluated at definition time by the interpreter, so early binding is caught). Each of the 8 text meta types makes exactly one helper call per direction under the charset in force and stores its result unchanged; every library call inside meta_charset is forced to fail in turn (fault injection) and must not leak the override.',
              note='Trusted: contextmanager semantics (body exception raised at the yield). Not decided: encodability of a given text in a given charset; concurrent loads with different charsets (global by design).',
              ref='DESIGN.md §3 C17'),
  'C18': dict(tech='abstract interpretation of SocketPort/PortServer on scripted socket/select doubles for every cut offset and several segmentations',
-             text='For a stream of one complete message plus the first k bytes of another (k=0..3), with and without pauses, iteration yields exactly the complete messages, ends without exception, the port reports closed and socket + both file objects are closed; select is polled with timeout 0 and every read follows a positive poll; close releases what __init__ acquired; PortServer.poll accepts a waiting client, delivers its message and terminates; format_address/parse_address are inverse on sample pairs and invalid addresses raise ValueError.',
+             text='For a stream of one complete message plus the first k bytes of another (k=0..3), with and without pauses, iteration yields exactly the complete messages, ends without exception, the port reports closed and socket + both file objects are closed; select is polled with timeout 0 and every read follows a positive poll; close releases what __init__ acquired; PortServer.poll accepts a waiting client, delivers its message and terminates; format_address/parse_address are inverse on sample pairs and invalid addresses raise ValueError. The cut-off second message is a channel message or a sysex cut after 1..4 bytes.',
              note='Not decided: OS-level behaviour (connection reset -> OSError is re-raised and iteration would raise); segmentation independence proper is C05.',
              ref='DESIGN.md §3 C18'),
  'C19': dict(tech='abstract interpretation of write_syx_file/read_syx_file on a file double, hex text in the symbolic string domain',
-             text='Lists mixing sysex messages of 0/1/3 symbolic bytes with other messages are written (binary and text) and read back: exactly the sysex messages in order with equal data; no sysex -> empty file -> []; other whitespace layouts parse alike; non two-digit hex raises ValueError; first-byte format detection after the empty-file guard.',
+             text='Lists mixing sysex messages of 0/1/3 symbolic bytes with other messages are written (binary and text) and read back: exactly the sysex messages in order with equal data; no sysex -> empty file -> []; other whitespace layouts parse alike; non two-digit hex raises ValueError; first-byte format detection after the empty-file guard. The Parser queue read_syx_file fills before retrieving must be unbounded.',
              note='Trusted: bytearray.fromhex semantics as modelled; C04/C06 for the parser. File system behaviour not modelled.',
              ref='DESIGN.md §3 C19'),
  'C20': dict(tech='abstract interpretation of Backend over the full finite configuration grid with recording module/environment doubles against a reference decision table',
-             text='1152 configurations x 3 open calls plus name/api split, listing and set_backend cases: which module is imported and when (lazily, once), constructor name by precedence explicit > environment > default, api reaching every constructor and query with explicit api winning, native IOPort vs wrapper, listings from get_devices, top-level rebinding.',
+             text='1152 configurations x 3 open calls plus name/api split, listing and set_backend cases: which module is imported and when (lazily, once), constructor name by precedence explicit > environment > default, api reaching every constructor and query with explicit api winning, native IOPort vs wrapper, listings from get_devices, top-level rebinding. set_backend is also interpreted in two-call histories (same name/api with another use_environ; another backend first).',
              note='Backend name containing "/" together with an explicit api= is unspecified and not in the grid. Trusted: decision table transcribed from the property and docs/backends.',
              ref='DESIGN.md §3 C20'),
 })
